@@ -670,13 +670,10 @@ def extra_coverage(cases, impl, model):
 #     every kind, tuple variants written as tables, nested sequences, maps with enum keys / struct
 #     values, Date / Time): tags vdate sdate odate enum3 ttime vecvec mapenum mapinner, answered by
 #     the block `mod extra` at the end of harness/src/bin/c15.rs under the same command.
-#   * new known class (reported, to be registered by the coordinator):
-#       C15-de-datekind-span-outer   a Date / Time fed another kind of date-time inside an array or as
-#         a newtype variant's payload: the error carries the span of the enclosing array / enum table,
-#         not of the offending value (Date::deserialize raises the mismatch after the element's
-#         deserializer returned; ArraySeqAccess::next_element_seed and
-#         TableEnumDeserializer::newtype_variant_seed attach no span).  Classifier: the model says
-#         kind=datetime-kind and every span the routes with text report is the model's.
+#   * the former class C15-de-datekind-span-outer (a Date / Time of the wrong kind inside an array or as
+#     a newtype variant's payload carried the span of the enclosing array / enum table) is repaired in
+#     /repo (ArraySeqAccess::next_element_seed and TableEnumDeserializer::newtype_variant_seed attach the
+#     element's / payload's span); its witnesses stay below as ordinary cases.
 # =============================================================================================
 import common as _common
 
@@ -799,44 +796,16 @@ def compare(case, ml, il):
     return _compare_before_deloc(case, ml, il)
 
 
-_known_class_before_deloc = known_class
-
-
-def known_class(case, line):
-    k = _known_class_before_deloc(case, line)
-    if k is not None or case.cmd != "deerr":
-        return k
-    m = deloc_fields(_deloc_line(case))
-    if not m or m.get("kind") != "datetime-kind":
-        return None
-    # every complaint must be "span X, offending value is at Y" with X the span the model predicts
-    # (plus, below an enum variant, the key path of the other known class)
-    f = dict(ROUTE.findall(line))
-    for r in WITH_TEXT:
-        v = f.get(r)
-        if v in (None, "ok") or route_fields(v).get("span") != m["wt"]:
-            return None
-    alt = case.meta.get("keys_alt")
-    keys = alt if alt is not None else case.meta.get("keys", "")
-    for r in WITHOUT_TEXT:
-        v = f.get(r)
-        if v in (None, "ok"):
-            return None
-        rf = route_fields(v)
-        got = rf.get("keys")
-        got = b"" if got in (None, "none") else bytes.fromhex(got)
-        if rf.get("span") != "none" or got.decode("utf-8", "replace") != keys:
-            return None
-    return "C15-de-datekind-span-outer"
-
 # the theorems of the located-error model are checked with the property (runner: COQ_PROPS_EXTRA)
 COQ_PROPS_EXTRA = list(globals().get("COQ_PROPS_EXTRA", [])) + ["Props/C15serde.v"]
 THEOREMS = list(globals().get("THEOREMS", [])) + [
-    "C15_de_located: forall c t s e, opt_overwrite c = false -> all_spans s -> de_loc c t s = LErr e -> kind not in {date-kind, unmodelled} -> "
-    "the error's span = the span of the node (or key) the error was raised at (ghost path e_at), through any nesting",
+    "C15_de_located: forall c t s e, opt_overwrite c = false -> all_spans s -> de_loc c t s = LErr e -> kind <> unmodelled -> "
+    "the error's span = the span of the node (or key) the error was raised at (ghost path e_at), through any nesting, the Date / Time kind "
+    "check included — except that kind check on the very node de_loc was called on (nobody handed it out)",
+    "C15_de_located_handed_out: behind any access that hands a node out (next_value_seed, next_element_seed, newtype_variant_seed, option, "
+    "newtype) every error is located",
     "C15_de_keypath / _ideal / _any: without spans the error has no span and its key path = the keys of the struct fields and map entries on the "
     "ghost path; = the full path to the offending node unless it lies below an enum variant",
     "C15_de_keypath_refuted: e = { N = \"x\" } -> key path `e`, offending node e.N (known finding C15-de-keypath-omits-enum-variant)",
-    "C15_de_date_kind_refuted: v = [1979-05-27, 1979-05-27T07:32:00Z] as Vec<Date> -> span of the whole array (class C15-de-datekind-span-outer)",
     "C15_de_refines: erasing locations, de_loc succeeds exactly when Model/De.v de_value does, with the same value",
 ]
